@@ -83,6 +83,8 @@ BY_CLASS = {
                   'description[1.5]', 'orders[amount]', 'amount.real', '1 if amount[0] else 2', '-description',
                   'not description + 1', 'nosuchvar', '[r.nosuch for r in orders]', 'orders[0].item[9]', 'description[99]'],
     'ZeroDivision-like': ['amount / "2" > 1', 'sum(amount) > 1', 'round(description) > 1'],
+    # expressions that first bind a name other rules read (walrus, loop variable) and then fail
+    'binds-then-fails': list(BINDING_TXN),
     # expressions that exhaust the interpreter's recursion limit when evaluated (a long operator chain: the loader accepts them)
     'too-deep': ['amount == ' + ' + '.join(['0.20'] * 700), ' or '.join(['contains("ZZ%d")' % k_ for k_ in range(400)]) + ' or amount == ' + ' + '.join(['1'] * 600),
                  'amount > ' + ' - '.join(['1000'] * 650)],
@@ -180,7 +182,7 @@ def gen_case(rng, tier, i=None):
             bad = rng.choice(BINDING_TXN)
         if forced:
             bad = rng.choice(BY_CLASS[forced[1]])
-            if forced[1] == 'disallowed-syntax':
+            if forced[1] in ('disallowed-syntax', 'binds-then-fails'):
                 bad = BY_CLASS[forced[1]][(i // 3) % len(BY_CLASS[forced[1]])]
             if site not in ('match', 'variable', 'let') and rng.random() < 0.5:
                 bad = bad.split(' == ')[0].split(' > ')[0]
@@ -192,8 +194,13 @@ def gen_case(rng, tier, i=None):
                 m['rules'].remove(r)
                 m['rules'].insert(0, r)
                 k = 0
+                readers = {'amount': 'amount > 10', 'is_large': 'is_large or amount > 1', 'lv': 'amount > 1', 'month': 'month >= 1',
+                           'description': 'contains(description)', 'source': 'source == "Card" or source == "Bank"', 'big': 'amount > 10'}
+                bound = [n_ for n_ in readers if re.search(r'\b%s\b' % n_, expr.split(')')[0].split(' in ')[0] + ' ' + expr[:30])]
                 for other in m['rules'][1:]:
-                    if rng.random() < 0.6:
+                    if forced and forced[1] == 'binds-then-fails' and bound:
+                        other['match'] = readers[bound[0]]       # every later rule reads exactly the name the failing one bound
+                    elif rng.random() < 0.6:
                         other['match'] = rng.choice(['amount > 10', 'contains("%s") and amount > 1' % rng.choice(words), 'month >= 1',
                                                      'source == "Card" or source == "Bank"', 'contains(description)'])
         elif site == 'let':
